@@ -1,0 +1,20 @@
+//go:build verif
+
+package verifhook
+
+import (
+	"github.com/emmansun/gmsm/internal/sm2ec/fiat"
+	"github.com/emmansun/gmsm/internal/sm9/bn256"
+)
+
+// field primitives of internal/sm9/bn256 (assembly or generic, whichever the build selects)
+var (
+	Gfp  = bn256.VerifGfp
+	Gfp2 = bn256.VerifGfp2
+)
+
+// fiat-crypto field and scalar-field elements of internal/sm2ec (the purego backend; compiled in every build)
+type (
+	FiatP256Element      = fiat.SM2P256Element
+	FiatP256OrderElement = fiat.SM2P256OrderElement
+)
